@@ -152,7 +152,7 @@ Definition join_node (p : path) (off : nat) (vec : bool) (extra_con extra_res : 
 (* ------------------------------------------------------------------ shared states *)
 (* the predecessor (at 0 :: p) completes into the shared state of node p:
    receiver moved to the stack (it carries the intrusive_ptr when [ref] = true: split,
-   ensure_started; split_tuple's receiver holds a plain reference), v.emplace, os.reset(),
+   ensure_started, split_tuple — all three today), v.emplace, os.reset(),
    predecessor_done = true, lock_guard, continuations (none stored in the sequential
    evaluation), then r is destroyed *)
 Definition pred_run (p : path) (ref : bool) (pr : nrun) : list lev :=
@@ -329,12 +329,14 @@ Fixpoint lrun (t : term) (p : path) : option nrun :=
                     (map (consumer p true pr) (seq 0 n))
       | None => None
       end
-  | SplitTuple t =>          (* the receiver holds a plain reference; the two element senders are joined by when_all *)
+  | SplitTuple t =>          (* as split: the split_tuple_receiver holds one reference (released with r when the
+                                predecessor has completed), each of the two element operation states one; the
+                                two element senders are joined by when_all.  Count after the run: 1 + 2 - 1 - 2 *)
       match lrun t (0 :: p) with
       | Some pr =>
-          let mk i := let c := consumer p false pr i in
+          let mk i := let c := consumer p true pr i in
                       {| n_con := n_con c; n_pre := n_pre c; n_c := tuple_c i (n_c c); n_res := n_res c; n_post := n_post c |} in
-          join_node p 1 false ([New (p, KShared)] ++ n_con pr) (shared_release p (2 - 2)%Z) [mk 0; mk 1]
+          join_node p 1 false ([New (p, KShared); RefInc p] ++ n_con pr) (shared_release p (1 + 2 - 1 - 2)%Z) [mk 0; mk 1]
       | None => None
       end
   | EnsureStarted t =>       (* the constructor connects and starts the predecessor; the consumer's
